@@ -431,7 +431,7 @@ impl<'a> Selector<'a> {
     fn convert_index(index: &Index, length: i32) -> Option<usize> {
         let idx = match index {
             Index::Index(idx) => *idx,
-            Index::LastIndex(idx) => length + *idx - 1,
+            Index::LastIndex(idx) => length.saturating_add(*idx).saturating_sub(1),
         };
         if idx >= 0 && idx < length {
             Some(idx as usize)
@@ -444,11 +444,11 @@ impl<'a> Selector<'a> {
     fn convert_slice(start: &Index, end: &Index, length: i32) -> Option<Vec<usize>> {
         let start = match start {
             Index::Index(idx) => *idx,
-            Index::LastIndex(idx) => length + *idx - 1,
+            Index::LastIndex(idx) => length.saturating_add(*idx).saturating_sub(1),
         };
         let end = match end {
             Index::Index(idx) => *idx,
-            Index::LastIndex(idx) => length + *idx - 1,
+            Index::LastIndex(idx) => length.saturating_add(*idx).saturating_sub(1),
         };
         if start > end || start >= length || end < 0 {
             None
